@@ -13,6 +13,8 @@ if '--tier' in sys.argv:
     args = [a for a in args if a != tier]
 files = sorted(glob.glob(os.path.join(V, 'mutants', '*.json')))
 fails = 0; total = 0
+import fcntl
+_lk = open('/var/tmp/verif-repo.lock', 'w'); fcntl.flock(_lk, fcntl.LOCK_EX)   # /repo is edited in place: one editor at a time
 for mf in files:
     prop = os.path.basename(mf)[:-5]
     if args and prop not in args:
